@@ -62,6 +62,9 @@ FAMILY_GOALS = [
     ("k = Bernoulli(1/2)\nc = 2*k\ny = 0\nwhile c < 2:\n    if c == 0:\n        c = 1 {1/4} 2 {1/4} 0\n    end\n    y = y + 1\nend\n", ["k", "k**2", "y", "k*y"]),
     ("k = DiscreteUniform(0, 2)\nc = 1\nx = 0\nwhile c == 1:\n    c = Bernoulli(1/2)\n    x = x + k\nend\n", ["k", "k*x", "x", "k**2"]),
     ("k = Bernoulli(1/3)\nc = k\nx = 5\nwhile c == 0:\n    c = Bernoulli(1/2)\n    x = x + 1\nend\n", ["k", "x", "k*x"]),
+    # guards that are overlapping disjunctions over one variable
+    ("c = 0\nx = 0\nwhile c <= 1 || c == 1:\n    c = DiscreteUniform(0, 2)\n    x = x + c\nend\n", ["c", "x", "c*x", "x**2"]),
+    ("c = 2\nx = 0\nwhile c >= 1 || c == 2 || c > 1:\n    c = 0 {1/4} 1 {1/4} 2\n    x = x + 1\nend\n", ["c", "x", "c*x"]),
     # the guard reads a random loop constant (termination with probability < 1) and the goals mention it
     ("p = 0 {1/4} 1 {1/2} 2\ny = 0\nwhile p == 1:\n    y = y + 1\nend\n", ["p", "p**2", "p*y", "y"]),
     ("p = Bernoulli(1/2)\nx = Bernoulli(1/3)\ny = 0\nwhile p == 1:\n    y = y + x\nend\n", ["p*x", "x", "y", "p*y"]),
